@@ -388,8 +388,12 @@ class Interp:
             n = subs[0][0]
             for m, _ in subs[1:]:
                 if not self.facts.eq(n, m):
-                    # zip truncates to the shortest; lengths here are equal by construction
-                    raise Unmodelled(f"zip of sequences with lengths {n!r} and {m!r}")
+                    # zip stops at the shortest sequence: decide (or fork on) which one that is
+                    le = self.facts.compare(n, "<=", m)
+                    if le is None:
+                        le = self.truth(VBool(None, f"{self.facts.norm(n)!r} <= {self.facts.norm(m)!r}", *_int_fact_installers("<=", self.facts.norm(n), self.facts.norm(m))))
+                    if not le:
+                        n = m
             return n, (lambda k: VTuple(tuple(g(k) for _, g in subs)))
         if isinstance(v, VEnumerate):
             s = self.sym_length(v.inner)
@@ -623,6 +627,8 @@ class Interp:
     def ev_Name(self, e, fr):
         if e.id in fr.env:
             return fr.env[e.id]
+        if e.id in fr.f.module.globals_assigned and e.id not in fr.f.module.defs and e.id not in fr.f.module.imports:
+            return VBool(None, f"global {e.id}")       # module-level flag (e.g. C++ backend availability)
         r = self.model.resolve(fr.f.module, e)
         if r == "builtins.Ellipsis":
             return VOpaque("Ellipsis")
@@ -867,7 +873,10 @@ class Interp:
                 return VBool(c)
             a, b = self.facts.norm(l.p), self.facts.norm(r.p)
             key = f"{a!r} {sym} {b!r}"
-            return VBool(None, key, *_int_fact_installers(sym, a, b))
+            vb = VBool(None, key, *_int_fact_installers(sym, a, b))
+            if sym in ("==", "!="):
+                vb.rel = (sym, a, b)
+            return vb
         if isinstance(l, VBool) and isinstance(r, VBool) and sym in ("==", "!="):
             a, b = self.truth(l), self.truth(r)
             return VBool((a == b) if sym == "==" else (a != b))
@@ -941,9 +950,13 @@ class Interp:
                     f.assume_eq(x, y, "sequence equality")
             return VBool(None, key, on_true, None)
         key = f"seq {na} == seq {nb}"
+        sla, slb = _slice_info(l), _slice_info(r)
 
-        def on_true(f, na=na, nb=nb, la=la, lb=lb, ida=ida, idb=idb):
+        def on_true(f, na=na, nb=nb, la=la, lb=lb, ida=ida, idb=idb, sla=sla, slb=slb):
             f.assume_eq(la, lb, f"{key}: lengths")
+            if sla is not None and slb is not None and f.eq(sla[1], slb[1]) and (ida is None or idb is None):
+                # equal slices of two mode sequences: elementwise equality on that index range
+                f.add_partial(slb[0], sla[0], sla[1], sla[1] + la, key)
             if ida is not None and idb is not None:
                 ra, rb = f.seq_rep(ida), f.seq_rep(idb)
                 if ra != rb:
@@ -1245,6 +1258,8 @@ def _install_ge(facts: Facts, p: P, bound: int):
             facts.rel.append((a, P.const(bound) + P.atom(fresh) - rest))
             facts.log.append(f"{p!r} >= {bound}")
             return True
+    # c - atom >= bound  <=>  atom - (c - bound) <= 0 : pins the atom when its lower bound is reached
+    _pin_if_tight(facts, P.const(bound) - p)
     return False
 
 
@@ -1310,6 +1325,15 @@ def _as_seq(it: Interp, v):
         if all(isinstance(x, VInt) for x in items):
             return ("list", P.const(len(items)), lambda k, items=items: items[int(k.const_value())], None)
         return None
+    return None
+
+
+def _slice_info(v):
+    """(base sequence name, offset) for (slices of) mode-size sequences"""
+    if isinstance(v, VSeq):
+        base = getattr(v, "base", v.name)
+        if base.startswith(("N_", "M_")):
+            return base, v.lo
     return None
 
 
